@@ -2085,7 +2085,9 @@ void World::check_invariants()
       // an established TCP connection the channel keeps matters even when idle: only by watching it does the
       // application learn that the server closed it
       bool want_r = pc[i].nqueries > 0 || (pc[i].tcp && s->connected);
-      bool want_w = pc[i].tcp && (pc[i].out_len > 0 || s->connect_pending) && pc[i].nqueries > 0;
+      // unsent bytes need a write event whatever the transport: a datagram the kernel refused for now (would-block) waits
+      // in the connection's buffer just like the rest of a TCP frame
+      bool want_w = (pc[i].tcp ? (pc[i].out_len > 0 || s->connect_pending) : pc[i].out_len > 0) && pc[i].nqueries > 0;
       if (pc[i].tfo_initial) continue; // nothing announced before the first fast-open write (documented)
       bool ar = legacy ? (pc[i].fd < nfds && FD_ISSET(pc[i].fd, &r)) : s->ann_r;
       bool aw = legacy ? (pc[i].fd < nfds && FD_ISSET(pc[i].fd, &wset)) : s->ann_w;
@@ -2094,7 +2096,7 @@ void World::check_invariants()
                                                                       : fmt("the channel keeps the idle TCP connection on descriptor %d open but the application was not told to watch it for reading", pc[i].fd));
       if (want_r && pc[i].nqueries == 0) W("idle_tcp_connection_watched");
       if (want_w && !aw && !(cfg->pending_write_cb && pending_write_notified))
-        violate("C10:interest:write-not-announced", fmt("TCP descriptor %d has %d unsent bytes / unfinished connect but write interest was not announced", pc[i].fd, pc[i].out_len));
+        violate("C10:interest:write-not-announced", fmt("%s descriptor %d has %d unsent bytes / unfinished connect but write interest was not announced", pc[i].tcp ? "TCP" : "UDP", pc[i].fd, pc[i].out_len));
       if (want_w) W("write_interest_needed");
     }
     if (legacy) {
